@@ -1508,3 +1508,25 @@ Proof.
   - injection E as <-. rewrite N2 in Nn. discriminate.
   - destruct j; discriminate.
 Qed.
+
+(* the auxiliary invariants on the state of [tr_open]: task 0 is a notification (never cancelled),
+   unit 0 has one runnable notification, task 1 belongs to the unit still at the barrier *)
+Example notes_never_cancelled_nonvacuous :
+  exists t, reach ex_cfg2 (st_of ex_cfg2 tr_open) /\ nth_error (tasks (st_of ex_cfg2 tr_open)) 0 = Some t /\
+    is_note t = true /\ t_cancelled t = false.
+Proof. eexists. split; [reach_ex|]. split; [vm_compute; reflexivity|]. vm_compute. auto. Qed.
+
+Example unit_notes_count_nonvacuous :
+  exists un, reach ex_cfg2 (st_of ex_cfg2 tr_open) /\ nth_error (units (st_of ex_cfg2 tr_open)) 0 = Some un /\
+    u_notes un = 1 /\ countb (note_of 0) (tasks (st_of ex_cfg2 tr_open)) = 1.
+Proof. eexists. split; [reach_ex|]. split; [vm_compute; reflexivity|]. vm_compute. auto. Qed.
+
+Example unreleased_pending_nonvacuous :
+  exists t, reach ex_cfg2 (st_of ex_cfg2 tr_open) /\ nth_error (tasks (st_of ex_cfg2 tr_open)) 1 = Some t /\
+    released (st_of ex_cfg2 tr_open) (t_unit t) = false /\ t_st t = TAtAcquire.
+Proof. eexists. split; [reach_ex|]. split; [vm_compute; reflexivity|]. vm_compute. auto. Qed.
+
+Example notification_before_later_every_instant_nonvacuous :
+  exists s2 oss, run (init_of ex_cfg2) (tr_closed ++ [LRelAcquire 1]) = Some (s2, oss) /\
+    map t_st (tasks (st_of ex_cfg2 tr_closed)) = [TDone None; TAtAcquire] /\ map t_st (tasks s2) = [TDone None; TRunning].
+Proof. eexists _, _. split; [vm_compute; reflexivity|]. vm_compute. auto. Qed.
